@@ -15,6 +15,173 @@ fn add<S: Subject>(jobs: &mut Vec<Box<dyn JobT>>, variant: &str, disc: Disc, w: 
     jobs.push(mk_job(format!("{}/{:?}/{variant}", S::name(), disc), q, t, pc, ctx, check_overtake::<S>).floor("nontrivial", floor).boxed());
 }
 
+// ------------------------------------------------------------------------------------------------
+// structured generator: "remove storm".  Random histories hold one or two pending removes at a time; this generator
+// piles them up on purpose: actor A adds n elements (in generated chunks), actor C -- having seen them -- interleaves
+// own adds with removes of A's elements (contexts from contains() or read()), and a third replica B receives ALL of
+// C's ops before A's (per-actor order only), so up to n removes with pairwise different contexts are pending at once;
+// replica E additionally learns B's early state by merge.  Oracle: the model after every delivery, and equality with
+// the causally fed replica D at the end.
+
+#[derive(Clone, Debug, Hash, serde::Serialize, serde::Deserialize)]
+pub struct Storm {
+    actors: u16,
+    /// sizes of A's add chunks (1 = single add, >1 = add_all)
+    chunks: Vec<u8>,
+    /// per removal by C: (which of A's elements, ctx source: 0 contains / 1 read, C adds an own element first?)
+    removals: Vec<(u8, u8, bool)>,
+    /// how many of C's ops B receives before A's first op is let through, and interleaving picks afterwards
+    hold: u8,
+    picks: Vec<u16>,
+}
+
+fn storm_strategy() -> proptest::strategy::BoxedStrategy<Storm> {
+    use proptest::prelude::*;
+    (any::<u16>(), proptest::collection::vec(prop_oneof![3 => Just(1u8), 1 => 2u8..6], 1..=20), proptest::collection::vec((any::<u8>(), 0u8..2, any::<bool>()), 1..=26), any::<u8>(), proptest::collection::vec(any::<u16>(), 8..=8))
+        .prop_map(|(actors, chunks, removals, hold, picks)| Storm { actors, chunks, removals, hold, picks })
+        .boxed()
+}
+
+fn check_storm(c: &Storm, stats: &mut Stats) -> Result<(), Fail> {
+    use super::common::*;
+    use crate::subject::orswot::sem_of;
+    let plan = Plan { editors: 2, observers: 3, steps: Vec::new(), settle: c.picks.clone(), actors: c.actors };
+    let cfg = RunCfg::new(Disc::Fifo);
+    let mut sim = new_sim::<SOrswot>(&plan, &cfg, stats);
+    // replicas: 0 = A, 1 = C, 2 = B (C's ops first), 3 = D (causal), 4 = E (merges B early)
+    let (ra, rc, rb, rd, re) = (0usize, 1usize, 2usize, 3usize, 4usize);
+    let (aa, ac) = (sim.reps[ra].actor.unwrap(), sim.reps[rc].actor.unwrap());
+    let mut a_ops: Vec<usize> = Vec::new();
+    let mut c_ops: Vec<usize> = Vec::new();
+    let mut next_member = 0u8;
+    let mut a_members: Vec<u8> = Vec::new();
+    for ch in &c.chunks {
+        if a_members.len() >= 24 {
+            break;
+        }
+        let k = (*ch as usize).min(24 - a_members.len()).max(1);
+        let ms: Vec<u8> = (0..k).map(|_| {
+            next_member += 1;
+            next_member
+        }).collect();
+        let st = &sim.reps[ra].st;
+        let op = if ms.len() == 1 { st.add(ms[0], st.read_ctx().derive_add_ctx(aa)) } else { st.add_all(ms.clone(), st.read_ctx().derive_add_ctx(aa)) };
+        let sem = sem_of(&op);
+        a_ops.push(sim.inject(ra, op, sem, format!("add{:?}", ms)));
+        a_members.extend(ms);
+    }
+    // C sees everything A did
+    for &o in &a_ops {
+        sim.deliver(rc, o);
+    }
+    let mut own = 100u8;
+    for (which, src, add_first) in &c.removals {
+        if *add_first {
+            own += 1;
+            let st = &sim.reps[rc].st;
+            let op = st.add(own, st.read_ctx().derive_add_ctx(ac));
+            let sem = sem_of(&op);
+            c_ops.push(sim.inject(rc, op, sem, format!("add({own})")));
+        }
+        let m = a_members[*which as usize % a_members.len()];
+        let st = &sim.reps[rc].st;
+        let op = if *src == 0 { st.rm(m, st.contains(&m).derive_rm_ctx()) } else { st.rm(m, st.read().derive_rm_ctx()) };
+        let sem = sem_of(&op);
+        c_ops.push(sim.inject(rc, op, sem, format!("rm({m}) ctx from {}", if *src == 0 { "contains" } else { "read" })));
+    }
+    let check = |sim: &Sim<SOrswot>, r: usize, stats: &mut Stats| -> Result<(), Fail> {
+        let got = SOrswot::observe(&sim.reps[r].st);
+        let want = SOrswot::predict(&sim.metas, sim.reps[r].know).unwrap();
+        stats.observations += want.len() as u64;
+        let d = diff_points(&got, &want);
+        if d.is_empty() {
+            Ok(())
+        } else {
+            Err(Fail::new(mismatch_msg("read with piled-up pending removes differs from the specification", r, &d, &got, &want)))
+        }
+    };
+    let mut max_pending = 0usize;
+    let mut run = |sim: &mut Sim<SOrswot>, stats: &mut Stats| -> Result<(), Fail> {
+        // D: causal reference (A's ops, then C's)
+        for &o in a_ops.iter().chain(c_ops.iter()) {
+            sim.deliver(rd, o);
+        }
+        check(sim, rd, stats)?;
+        // B: first `hold` of C's ops, then interleave the rest of C's with A's in a generated way (per-actor order kept)
+        let hold = (c.hold as usize % (c_ops.len() + 1)).max(c_ops.len().saturating_sub(c.hold as usize % 3));
+        let (mut ia, mut ic) = (0usize, 0usize);
+        let mut pi = 0usize;
+        let mut e_merged = false;
+        while ia < a_ops.len() || ic < c_ops.len() {
+            let take_c = ic < c_ops.len() && (ic < hold || ia >= a_ops.len() || c.picks[pi % c.picks.len()] & 1 == 0);
+            pi += 1;
+            if take_c {
+                sim.deliver(rb, c_ops[ic]);
+                if sim.trace {
+                    sim.log.push(format!("r{rb} <- op#{}", c_ops[ic]));
+                }
+                ic += 1;
+            } else {
+                // E learns B's state (with all its pending removes) by merge just before A's first op gets through
+                if !e_merged {
+                    let b_state = sim.reps[rb].st.clone();
+                    let b_know = sim.reps[rb].know;
+                    SOrswot::merge(&mut sim.reps[re].st, b_state);
+                    sim.reps[re].know |= b_know;
+                    sim.reps[re].merged = true;
+                    e_merged = true;
+                    if sim.trace {
+                        sim.log.push(format!("r{re} <- merge(state of r{rb})"));
+                    }
+                    check(sim, re, stats)?;
+                }
+                sim.deliver(rb, a_ops[ia]);
+                if sim.trace {
+                    sim.log.push(format!("r{rb} <- op#{}", a_ops[ia]));
+                }
+                ia += 1;
+            }
+            // how many removes are pending at B now (model: known removes whose context is not covered)?
+            let mut clock = Clock::new();
+            for o in bits_iter(sim.reps[rb].know) {
+                if let Some(d) = sim.metas[o].sem.dot() {
+                    join_dot(&mut clock, d);
+                }
+            }
+            let pending = bits_iter(sim.reps[rb].know).filter(|o| matches!(remove_ctx(&sim.metas[*o].sem), Some(cx) if !leq(cx, &clock))).count();
+            max_pending = max_pending.max(pending);
+            check(sim, rb, stats)?;
+        }
+        // E receives whatever it still misses, per-actor order
+        for &o in a_ops.iter().chain(c_ops.iter()) {
+            if !has(sim.reps[re].know, o) {
+                sim.deliver(re, o);
+                check(sim, re, stats)?;
+            }
+        }
+        for r in [rb, re] {
+            if sim.reps[r].st != sim.reps[rd].st {
+                return Err(Fail::new(format!("r{r} (removes delivered before the adds they observed) is not == to the causally fed replica r{rd}:\n   {}\n   {}", crate::tree::to_tree(&sim.reps[r].st), crate::tree::to_tree(&sim.reps[rd].st))));
+            }
+        }
+        Ok(())
+    };
+    if let Err(f) = run(&mut sim, stats) {
+        return Err(fail_with(&sim, stats, f));
+    }
+    for k in [3usize, 8, 16, 20] {
+        if max_pending >= k {
+            stats.class(&format!("{k}+ removes pending at once"));
+        }
+    }
+    if max_pending >= 3 {
+        stats.cur_nontrivial = true;
+        stats.class("nontrivial");
+    }
+    finish(&sim, stats);
+    Ok(())
+}
+
 pub fn property() -> Property {
     let mut jobs: Vec<Box<dyn JobT>> = Vec::new();
     let ops = || Weights::ops_only();
@@ -41,6 +208,7 @@ pub fn property() -> Property {
     add::<SMin>(&mut jobs, "ops+merges", Disc::Any, mixed(), false, &[], 4000, 40_000, 0.02);
     add::<SMerkle>(&mut jobs, "ops+merges", Disc::Any, mixed(), false, &[], 6000, 60_000, 0.02);
     add::<SVClock>(&mut jobs, "ops+merges", Disc::Any, mixed(), false, &[], 4000, 40_000, 0.02);
+    jobs.push(job("Orswot/remove storm (structured: many pending removes at once)", 30000, 300_000, storm_strategy, |c: &Storm, st: &mut Stats| check_storm(c, st)).floor("nontrivial", 0.3).boxed());
     // plain regression scenario for the repaired defect MAP-T3b (bypasses the generators): two nested removes overtake
     // the adds they observed and are parked; a partial key remove then subtracts its dots from both parked clocks,
     // which become equal; before the fix one pending remove replaced the other and a removed member resurrected
